@@ -201,6 +201,7 @@ def check_panic_sites(rep, fb):
     BC.check_init(scratch, fb)
     CM.check_b2b(scratch, fb)
     CM.check_helpers(scratch, fb)
+    CM.check_constructors(scratch, fb)
     cr_cts, types = CM.cts_types(fb)
     for ty in types:
         for d in ("enc", "dec"):
